@@ -50,6 +50,25 @@ def udpqCmd (args : List String) : String :=
     s!"packets={s.packets} drops={s.drops} queued={s.queue.length} {linesStr s.handled}"
   | _ => "bad-op"
 
+/-- `udpl <cap> | send <hex> ; rel ; …` — the real `Listen` loop with the processing goroutine held inside the parser:
+    one datagram is in the parser, `cap` are in the queue, so a datagram is accepted iff fewer than `cap + 1` are pending.
+    The model is the same packet queue with `cap + 1` slots; `rel` lets the oldest pending datagram through (`process`). -/
+def udplCmd (args : List String) : String :=
+  match args with
+  | cap :: "|" :: rest =>
+    let subs := splitOnTok ";" rest
+    let s0 : UdpQ := { cap := cap.toNat?.getD 0 + 1 }
+    let s := subs.foldl (fun (s : UdpQ) sub =>
+      match sub with
+      | ["send", h] =>
+        match decHex h with
+        | some b => s.enqueue b b.length
+        | none => s
+      | ["rel"] => (s.process).getD s
+      | _ => s) s0
+    s!"packets={s.packets} drops={s.drops} queued={s.queue.length} {linesStr s.handled}"
+  | _ => "bad-op"
+
 end SE.Driver
 
 namespace SE.Driver
